@@ -2,6 +2,7 @@ package main
 
 import (
 	"fmt"
+	"sync/atomic"
 	"time"
 
 	"github.com/nsqio/nsq/internal/verif"
@@ -172,9 +173,30 @@ func (r *Run) timingLedger(evs []verif.Event) (checked int) {
 			}
 		}
 	}
-	if worst > int64(10*time.Second) {
-		r.failf("[C04] a message was picked up %s after its deadline although the queue scan runs every 10ms", time.Duration(worst))
+	// "soon after": with a 10 ms scan interval a message is normally picked up within a few tens of ms. The bound
+	// is 1 s, raised to 25x the worst oversleep a plain 5 ms sleeper saw in this process during the run (machine load)
+	bound := int64(time.Second)
+	if l0 := 25 * atomic.LoadInt64(&maxOversleep); l0 > bound {
+		bound = l0
+	}
+	if worst > bound {
+		r.failf("[C04] a message was picked up %s after its deadline although the queue scan wakes up every 10-50 ms (bound %s)", time.Duration(worst), time.Duration(bound))
 	}
 	r.worstLate = worst
 	return checked
+}
+
+// maxOversleep: the worst overshoot of a 5 ms sleeper goroutine in this process (a measure of machine load)
+var maxOversleep int64
+
+func init() {
+	go func() {
+		for {
+			t0 := time.Now()
+			time.Sleep(5 * time.Millisecond)
+			if over := int64(time.Since(t0) - 5*time.Millisecond); over > atomic.LoadInt64(&maxOversleep) {
+				atomic.StoreInt64(&maxOversleep, over)
+			}
+		}
+	}()
 }
